@@ -10,55 +10,107 @@
    [rvl k V] is the revision held for key k.  Views are compared by revision: the code swallows an event whose
    revision equals the cached one, so contents agree exactly when a revision identifies the content of a key. *)
 From Coq Require Import List NArith Arith Bool.
-From Verif.C26 Require Import Model Spec Proofs Steps.
+From Verif.C26 Require Import Model Spec Proofs Steps Syncer Shape Main.
 Import ListNotations.
 
 (* Convergence: after ANY sequence of list results, list errors, watch-creation outcomes, watch events, watch errors,
    expired revisions, bookmarks and timeouts, the emitted update stream applied in order yields exactly the
    (converted) contents the datastore reported last: the last successful list edited by the watch events since
    (emptied on a lost connection when SendDeletesOnConnFail is set). *)
-Theorem c26_converges : forall ord g ins c rs,
+Theorem c26_cache_converges : forall ord g ins c rs,
   ord_ok ord -> cache_run ord g (fst cache_init) ins = Some (c, rs) ->
   forall k, rvl k (cfold [] (upds_of rs)) = rvl k (sv (spec_run g sstate0 ins)).
 Proof. exact cache_converges. Qed.
-Print Assumptions c26_converges.
+Print Assumptions c26_cache_converges.
 
 (* Resources that vanished during a resync are deleted: when a List completes, every key the consumer holds that is
    absent from the (converted) listed items gets a deletion in that very step. *)
-Theorem c26_vanished_deleted : forall ord g ins c rs0 t items lrev c' rs,
+Theorem c26_cache_vanished_deleted : forall ord g ins c rs0 t items lrev c' rs,
   ord_ok ord -> cache_run ord g (fst cache_init) ins = Some (c, rs0) ->
   cache_step ord g c t (RListOk items lrev) = Some (c', rs) ->
   forall k, rvl k (cfold [] (upds_of rs0)) <> None -> rvl k (slist (cv g) items) = None -> In (UDel k) (upds_of rs).
 Proof. exact cache_vanished_deleted. Qed.
-Print Assumptions c26_vanished_deleted.
+Print Assumptions c26_cache_vanished_deleted.
 
 (* No update while waiting for the datastore — what the code guarantees precisely: scanning everything a cache ever
    puts on the results channel, no KV update follows a WaitForDatastore status without another status in between
    (the scan [nowait] never fails, and it ends in the cache's own status field).  In particular the deletions sent on
    a lost connection are preceded by a transition to ResyncInProgress. *)
-Theorem c26_no_update_while_waiting : forall ord g ins c rs,
+Theorem c26_cache_no_update_while_waiting : forall ord g ins c rs,
   ord_ok ord -> cache_run ord g (fst cache_init) ins = Some (c, rs) -> nowait Wait rs = Some (status c).
 Proof. exact cache_no_update_while_waiting. Qed.
-Print Assumptions c26_no_update_while_waiting.
+Print Assumptions c26_cache_no_update_while_waiting.
 
 (* A cache reports InSync only if a full List (or the server's "no such resource type" answer, which the code treats
    as an empty, complete list) has completed since its connection was last declared lost. *)
-Theorem c26_insync_after_listed : forall ord g ins c rs,
+Theorem c26_cache_insync_after_listed : forall ord g ins c rs,
   ord_ok ord -> cache_run ord g (fst cache_init) ins = Some (c, rs) ->
   status c = InSync -> slisted (spec_run g sstate0 ins) = true.
 Proof. exact cache_insync_listed. Qed.
-Print Assumptions c26_insync_after_listed.
+Print Assumptions c26_cache_insync_after_listed.
 
-(* The syncer: after any script the status it has reported is the aggregate of the caches' last statuses ... *)
-Theorem c26_syncer_status_is_aggregate : forall ord gs steps s s' os,
-  wstatus s = agg (cstat s) -> syncer_run ord gs s steps = Some (s', os) -> wstatus s' = agg (cstat s').
-Proof. exact syncer_status_is_agg. Qed.
-Print Assumptions c26_syncer_status_is_aggregate.
-
-(* ... and the aggregate is InSync exactly when EVERY cache's last reported status is InSync. *)
+(* The aggregate status is InSync exactly when EVERY cache's last reported status is InSync. *)
 Theorem c26_agg_insync_iff_all : forall cs, agg cs = InSync <-> Forall (fun s => s = InSync) cs.
 Proof. exact agg_insync. Qed.
 Print Assumptions c26_agg_insync_iff_all.
+
+(* ======================= the property on the SYNCER's callback stream =======================
+   [gs] are the resource types (at least one), cache i is fed ANY input sequence [nth i inss]; [es] is ANY
+   interleaving of the caches' result streams as read from the results channel, with [SFlush] at ANY points (where the
+   consolidation loop of watcherSyncer.run happened to call sendUpdates): [interleaving ord gs inss es].
+   [proc (syncer0 gs) es] is watcherSyncer.processResult run over it (pending-update batching, flush before errors
+   and status changes, status aggregation); [o] are the SyncerCallbacks calls made, [pend] what the next sendUpdates
+   will deliver, [delivered o pend] both.  [oups i] selects the updates of resource type i. *)
+
+Theorem c26_converges : forall ord, ord_ok ord -> forall gs inss es cs ws pend o,
+  interleaving ord gs inss es -> proc (syncer0 gs) es = ((cs, ws, pend), o) ->
+  forall i g ins, nth_error gs i = Some g -> nth_error inss i = Some ins ->
+  forall k, rvl k (cfold [] (oups i (delivered o pend))) = rvl k (sv (spec_run g sstate0 ins)).
+Proof. exact syncer_converges. Qed.
+Print Assumptions c26_converges.
+
+Theorem c26_vanished_deleted : forall ord, ord_ok ord -> forall gs inss es cs ws pend o,
+  interleaving ord gs inss es -> proc (syncer0 gs) es = ((cs, ws, pend), o) ->
+  forall i g ins1 t items lrev ins2, nth_error gs i = Some g ->
+  nth_error inss i = Some (ins1 ++ (t, RListOk items lrev) :: ins2) ->
+  forall k, rvl k (sv (spec_run g sstate0 ins1)) <> None -> rvl k (slist (cv g) items) = None ->
+  In (OUpd i (UDel k)) (delivered o pend).
+Proof. exact syncer_vanished_deleted. Qed.
+Print Assumptions c26_vanished_deleted.
+
+(* [oscan Wait l = Some ws]: scanning the callbacks from the initial WaitForDatastore, no OnUpdates ever comes while the
+   last OnStatusUpdated said WaitForDatastore, and the last status reported is [ws]. *)
+Theorem c26_no_update_while_waiting : forall ord, ord_ok ord -> forall gs, gs <> [] -> forall inss es cs ws pend o,
+  interleaving ord gs inss es -> proc (syncer0 gs) es = ((cs, ws, pend), o) ->
+  oscan Wait (delivered o pend) = Some ws.
+Proof. exact syncer_no_update_while_waiting. Qed.
+Print Assumptions c26_no_update_while_waiting.
+
+(* At ANY moment (after any prefix es1 of what the syncer reads) at which the status reported last is InSync, every
+   resource type's cache has already sent its own InSync, which a cache sends only in a step that completes a full
+   List (or gets the server's "no such resource type") ... *)
+Theorem c26_insync_after_all_listed : forall ord, ord_ok ord -> forall gs, gs <> [] -> forall inss es1 es2 cs pend o,
+  interleaving ord gs inss (es1 ++ es2) -> proc (syncer0 gs) es1 = ((cs, InSync, pend), o) ->
+  forall i g ins, nth_error gs i = Some g -> nth_error inss i = Some ins ->
+  In (ResStatus InSync) (proj i es1) /\ existsb list_done (map snd ins) = true.
+Proof. exact syncer_insync_after_all_listed. Qed.
+Print Assumptions c26_insync_after_all_listed.
+
+(* ... and when everything sent has been processed and the syncer says InSync, every resource type has completed a
+   full List since its connection was last declared lost. *)
+Theorem c26_insync_all_listed_since_lost : forall ord, ord_ok ord -> forall gs, gs <> [] -> forall inss es cs pend o,
+  interleaving ord gs inss es -> proc (syncer0 gs) es = ((cs, InSync, pend), o) ->
+  forall i g ins, nth_error gs i = Some g -> nth_error inss i = Some ins -> slisted (spec_run g sstate0 ins) = true.
+Proof. exact syncer_insync_all_listed. Qed.
+Print Assumptions c26_insync_all_listed_since_lost.
+
+(* The scripted runs [syncer_run] that the correspondence run compares with the real watcherSyncer are such
+   interleavings (one cache step at a time, a flush after each), so all of the above applies to them. *)
+Theorem c26_scripted_runs_are_interleavings : forall ord gs steps s' os,
+  syncer_run ord gs (fst (syncer_init gs)) steps = Some (s', os) ->
+  exists es, interleaving ord gs (all_ins gs steps) es /\ proc (syncer0 gs) es = ((cstat s', wstatus s', []), concat os).
+Proof. exact syncer_run_interleaving. Qed.
+Print Assumptions c26_scripted_runs_are_interleavings.
 
 (* Non-vacuity: a run with a list, an unobserved deletion found by the resync, a lost connection and recovery. *)
 Example c26_example :
